@@ -22,9 +22,10 @@ def trace_prefixes():
 def gen_agents(rng, n_agents, comps=(), capacity=(50, 200), hosting=True, routes=True):
     names = [f"a{i}" for i in range(n_agents)]
     agents = []
+    default_route = rng.choice([1, 1, 2])      # one default for all: routes stay symmetric
     for i, a in enumerate(names):
         d = {"name": a, "capacity": rng.randint(*capacity),
-             "default_route": rng.choice([1, 1, 2]),
+             "default_route": default_route,
              "default_hosting_cost": rng.choice([0, 0, 1, 5])}
         if hosting and comps:
             d["hosting_costs"] = {c: rng.randint(0, 9) for c in comps if rng.random() < 0.3}
